@@ -938,10 +938,33 @@ Print Assumptions C02_semver_and.
 
 (* ====== ties to the source: BEGIN (written by bin/mkties) ====== *)
 (* The Go functions named here are translated into Gallina from /repo's source on every run
-   (tools/gen/code.go -> Gen/Code/<Eco>.v); Tie/<Eco>.v, Tie/<Eco>Range.v prove each translation equal to the
-   model the theorems above speak about.  If the code changes so that a tie no longer holds,
-   this file no longer checks. *)
-From Verif.Tie Require AlpineRange AlpmRange ApacheRange CargoRange ConanRange CranRange DebianRange GemRange GentooRange GithubRange GolangRange HexRange MattermostRange MavenRange NugetRange PypiRange RpmRange.
+   (tools/gen -> Gen/Code/<Eco>.v for loop-free functions, Gen/Loops/<Eco>.v for functions with
+   loops and index expressions, where a panic is Panic and a loop takes fuel); Tie/<Eco>.v,
+   Tie/<Eco>Range.v and Tie/Loops/<Eco>.v prove each translation equal to the model the theorems
+   above speak about (and, for the loop functions: no panic, termination within a linear bound).
+   If the code changes so that a tie no longer holds, this file no longer checks. *)
+Require Verif.Tie.AlpineRange.
+Require Verif.Tie.AlpmRange.
+Require Verif.Tie.ApacheRange.
+Require Verif.Tie.CargoRange.
+Require Verif.Tie.ConanRange.
+Require Verif.Tie.CranRange.
+Require Verif.Tie.DebianRange.
+Require Verif.Tie.GemRange.
+Require Verif.Tie.GentooRange.
+Require Verif.Tie.GithubRange.
+Require Verif.Tie.GolangRange.
+Require Verif.Tie.HexRange.
+Require Verif.Tie.MattermostRange.
+Require Verif.Tie.MavenRange.
+Require Verif.Tie.NugetRange.
+Require Verif.Tie.PypiRange.
+Require Verif.Tie.RpmRange.
+Require Verif.Tie.Loops.AlpmRange.
+Require Verif.Tie.Loops.CargoRange.
+Require Verif.Tie.Loops.ConanRange.
+Require Verif.Tie.Loops.CranRange.
+Require Verif.Tie.Loops.RpmRange.
 Definition C02_tie_alpine_VersionRange_String := Verif.Tie.AlpineRange.tie_alpine_VersionRange_String.
 Print Assumptions C02_tie_alpine_VersionRange_String.
 Definition C02_tie_alpine_VersionRange_Contains := Verif.Tie.AlpineRange.tie_alpine_VersionRange_Contains.
@@ -1040,4 +1063,40 @@ Definition C02_tie_rpm_satisfiesRPMConstraint_model := Verif.Tie.RpmRange.tie_rp
 Print Assumptions C02_tie_rpm_satisfiesRPMConstraint_model.
 Definition C02_tie_rpm_contains := Verif.Tie.RpmRange.tie_rpm_contains.
 Print Assumptions C02_tie_rpm_contains.
+Definition C02_tie_alpm_matches_closed := Verif.Tie.Loops.AlpmRange.tie_alpm_matches_closed.
+Print Assumptions C02_tie_alpm_matches_closed.
+Definition C02_tie_alpm_contains_closed := Verif.Tie.Loops.AlpmRange.tie_alpm_contains_closed.
+Print Assumptions C02_tie_alpm_contains_closed.
+Definition C02_tie_alpm_contains_closed_model_split := Verif.Tie.Loops.AlpmRange.tie_alpm_contains_closed_model_split.
+Print Assumptions C02_tie_alpm_contains_closed_model_split.
+Definition C02_tie_loops_cargo_countVersionComponents := Verif.Tie.Loops.CargoRange.tie_loops_cargo_countVersionComponents.
+Print Assumptions C02_tie_loops_cargo_countVersionComponents.
+Definition C02_tie_loops_cargo_countVersionComponents_range := Verif.Tie.Loops.CargoRange.loops_cargo_countVersionComponents_range.
+Print Assumptions C02_tie_loops_cargo_countVersionComponents_range.
+Definition C02_tie_compare_closed := Verif.Tie.Loops.CargoRange.compare_closed.
+Print Assumptions C02_tie_compare_closed.
+Definition C02_tie_cargo_caret_closed := Verif.Tie.Loops.CargoRange.tie_cargo_caret_closed.
+Print Assumptions C02_tie_cargo_caret_closed.
+Definition C02_tie_cargo_tilde_closed := Verif.Tie.Loops.CargoRange.tie_cargo_tilde_closed.
+Print Assumptions C02_tie_cargo_tilde_closed.
+Definition C02_tie_cargo_satisfiesConstraint_closed := Verif.Tie.Loops.CargoRange.tie_cargo_satisfiesConstraint_closed.
+Print Assumptions C02_tie_cargo_satisfiesConstraint_closed.
+Definition C02_tie_cargo_satisfiesConstraint_counted := Verif.Tie.Loops.CargoRange.tie_cargo_satisfiesConstraint_counted.
+Print Assumptions C02_tie_cargo_satisfiesConstraint_counted.
+Definition C02_tie_loops_conan_tildeMatch := Verif.Tie.Loops.ConanRange.tie_loops_conan_tildeMatch.
+Print Assumptions C02_tie_loops_conan_tildeMatch.
+Definition C02_tie_loops_conan_caretMatch := Verif.Tie.Loops.ConanRange.tie_loops_conan_caretMatch.
+Print Assumptions C02_tie_loops_conan_caretMatch.
+Definition C02_tie_tildeMatch_total_model := Verif.Tie.Loops.ConanRange.tildeMatch_total_model.
+Print Assumptions C02_tie_tildeMatch_total_model.
+Definition C02_tie_caretMatch_total_model := Verif.Tie.Loops.ConanRange.caretMatch_total_model.
+Print Assumptions C02_tie_caretMatch_total_model.
+Definition C02_tie_conan_contains_closed := Verif.Tie.Loops.ConanRange.tie_conan_contains_closed.
+Print Assumptions C02_tie_conan_contains_closed.
+Definition C02_tie_cran_contains_closed := Verif.Tie.Loops.CranRange.tie_cran_contains_closed.
+Print Assumptions C02_tie_cran_contains_closed.
+Definition C02_tie_rpm_satisfiesRPMConstraint_closed := Verif.Tie.Loops.RpmRange.tie_rpm_satisfiesRPMConstraint_closed.
+Print Assumptions C02_tie_rpm_satisfiesRPMConstraint_closed.
+Definition C02_tie_rpm_contains_closed := Verif.Tie.Loops.RpmRange.tie_rpm_contains_closed.
+Print Assumptions C02_tie_rpm_contains_closed.
 (* ====== ties to the source: END ====== *)
